@@ -6,14 +6,21 @@ C16, second pass on the whole-function models of Pollard P-1 (Model/Pm1Impl.lean
     `pp1_stage2_found` is the full form of `pp1_stage2_found_partial` (both the giant entry and the baby entry are
     entries of the model's lists), and `pp1_stage2_product_zero` says that the double product `roots_eval` is specified
     to compute over those lists vanishes.
+  * `pm1_exp_modn_residues`: `exp_modn_spec` transported to the residues `a*b % m` of the model (one of the three
+    ingredients the first pass listed as missing for `pm1_impl_no_panic`); `pm1_gap_table_in_range`: the gap-table index
+    bounds (the second); `pm1_walk_block_no_panic`: a sieve block of the prime walk never panics;
+    `pm1_walk_stop_prime_found`, `pm1_walk_found_partial`: what the walk's product holds at the end of a block.
+  Still open: the gcd-chain property of `gpows`/`products` handed to `check_gcd_factors` (its `debug_assert!`s) across a
+  ring shrink, hence no `pm1_impl_no_panic` for the whole function.
 -/
 import Ymq.Lemmas.Pp1Baby
+import Ymq.Lemmas.Pm1Walk
 import Ymq.Props.C16Pp1
 import Ymq.Props.C16Pm1
 
 namespace Ymq.C16
 open Ymq.Pp1Impl Ymq.ExpModn Ymq.Gen Ymq.Stage2
-open Ymq.Pm1Impl (mulm subm onem)
+open Ymq.Pm1Impl (mulm subm onem W WInv GInv walkStep walkBlock extendGaps)
 
 /-! ## P+1: completeness of the baby steps, stage 2 in full -/
 
@@ -91,5 +98,84 @@ theorem pp1_stage2_product_zero {R : Type*} [CommRing R] {x y : R} (hxy : x * y 
   rw [this, hz, neg_zero]
 
 example : ((-1 : ZMod 7) * (-1) = 1) ∧ ((-1 : ZMod 7) ^ (4 * 2) = 1) := by decide
+
+/-! ## P-1: `exp_modn` on residues, the gap table, the prime walk -/
+
+/-- **`exp_modn` on the residues of the model.** For every modulus `m` (also `m = 0, 1`), every `g` and every `u64`
+exponent, `exp_modn` computed with `a*b % m` does not reach `unreachable!` and returns a value `≡ g^e (mod m)`:
+`exp_modn_spec` (over an abstract commutative monoid) transported along `Nat → ZMod m`. -/
+theorem pm1_exp_modn_residues (m g e : Nat) (he : e < 2 ^ 64) :
+    ∃ x, expModn (mulm m) (onem m) g e = some x ∧ x ≡ g ^ e [MOD m] :=
+  Ymq.Pm1Impl.expModn_mod g e he
+
+example : expModn (mulm 77) (onem 77) 2 5 = some 32 ∧ (5 : Nat) < 2 ^ 64 := ⟨by decide +kernel, by norm_num⟩
+
+/-- **Gap-table index bounds.** `while gaps.len() <= half { gaps.push(gaps[last] * g2) }` from a non-empty table with
+`gaps[i] ≡ g^(2i+2)`: `gaps[gaps.len() - 1]` is never out of range, afterwards `half < gaps.len()` — the index
+`gap/2 − 1` the walk and the baby steps of `pm1_stage2_polyeval` read is in range — and the table still holds
+`g^(2i+2)`. -/
+theorem pm1_gap_table_in_range {m g g2 : Nat} (hg2 : g2 ≡ g ^ 2 [MOD m]) {gaps : List Nat} (hinv : GInv m g gaps)
+    (half : Nat) :
+    ∃ gaps', extendGaps m g2 (half + 1) gaps half = some gaps' ∧ half < gaps'.length ∧ GInv m g gaps' :=
+  Ymq.Pm1Impl.extendGaps_spec hg2 (half + 1) gaps half hinv (by omega)
+
+example : (mulm 77 2 2 ≡ 2 ^ 2 [MOD 77]) ∧ GInv 77 2 [mulm 77 2 2] ∧
+    extendGaps 77 (mulm 77 2 2) 4 [mulm 77 2 2] 3 = some [4, 16, 64, 25] :=
+  ⟨Ymq.Pm1Impl.g2_modEq 77 2, ⟨by simp, fun i v hv => by
+    match i, hv with
+    | 0, hv => simp at hv; subst hv; exact Ymq.Pm1Impl.g2_modEq 77 2
+    | i + 1, hv => simp at hv⟩, by decide +kernel⟩
+
+/-- **A sieve block of the prime walk never panics** (`assert!(gap > 0 && gap % 2 == 0)`, `gaps[gap/2 − 1]`): from a
+state with `x ≡ g^p_prev`, `gaps[i] ≡ g^(2i+2)` and an odd `p_prev`, over a block of increasing odd numbers (what
+`PrimeSieve` yields after its first block; the walk starts at `p_prev > b1 > 3`), for every ring modulus `m > 0`; the
+state it ends in satisfies the same invariant. -/
+theorem pm1_walk_block_no_panic {m g b2 : Nat} (hm : 0 < m) {w : W} (hinv : WInv m g w) (hodd : w.pPrev % 2 = 1)
+    {blk : List Nat} (hsorted : blk.Pairwise (· < ·)) (hodds : ∀ p ∈ blk, p % 2 = 1) :
+    ∃ w', walkBlock m (mulm m g g) b2 blk w = some w' ∧ WInv m g w' ∧ w'.pPrev % 2 = 1 := by
+  obtain ⟨w', h1, h2, h3, _⟩ := Ymq.Pm1Impl.walkBlock_spec (b2 := b2) hm (Ymq.Pm1Impl.g2_modEq m g) blk w hinv hsorted hodds hodd
+  exact ⟨w', h1, h2, h3⟩
+
+example : [7, 11, 13].Pairwise (· < ·) ∧ (∀ p ∈ [7, 11, 13], p % 2 = 1) ∧ 5 % 2 = 1 := by decide
+
+/-- **The stop prime is found.** The walk of `pm1_impl` starts (for `p_prev < 2^64`: it is a `u32`) without a panic of
+`exp_modn`, from a state satisfying the walk invariant, and its first product is divisible by every divisor `q` of the
+ring modulus with `g^p_prev ≡ 1 (mod q)`: with `pm1_walk_includes_stop_prime` and `pm1_walk_product_accumulates` the
+stop prime's term is in every later product. -/
+theorem pm1_walk_stop_prime_found {m : Nat} (hm : 0 < m) (g pPrev : Nat) (hp : pPrev < 2 ^ 64) :
+    ∃ x, expModn (mulm m) (onem m) g pPrev = some x ∧
+      WInv m g { x := x, product := subm m x (onem m), productsRev := [onem m], gaps := [mulm m g g], pPrev := pPrev } ∧
+      ∀ q, q ∣ m → g ^ pPrev ≡ 1 [MOD q] → q ∣ subm m x (onem m) :=
+  Ymq.Pm1Impl.walk_init hm g pPrev hp
+
+example : (2 ^ 5 ≡ 1 [MOD 31]) ∧ 31 ∣ 31 * 3 ∧ 31 ∣ subm 93 32 (onem 93) := by decide
+
+/-- **What the prime walk finds, per sieve block.** From a state satisfying the walk invariant (the initial one does:
+`pm1_walk_stop_prime_found`), over a block of increasing odd numbers: every `l` of the block with `p_prev < l ≤ b2` and
+`g^l ≡ 1 (mod q)` for a divisor `q` of the ring modulus has `q ∣ product` in the state the block ends in (also when the
+block is left early at the first `p > b2`), and divisors of the incoming product are kept.
+`_partial`: the statement for the whole walk (`walkOuter`: every prime `l` with `p_prev_stop ≤ l ≤ b2`) needs in
+addition that the blocks `PrimeSieve::next` yields are the increasing odd primes (C17 `blockAt_spec`, Lemmas/PrimesStream)
+and that `check_gcd_factors` between two blocks does not panic; `walkOuter` hands `x`, `product`, `gaps`, `p_prev`
+unchanged to the next block. -/
+theorem pm1_walk_found_partial {m g b2 : Nat} (hm : 0 < m) {w w' : W} (hinv : WInv m g w) (hodd : w.pPrev % 2 = 1)
+    {blk : List Nat} (hsorted : blk.Pairwise (· < ·)) (hodds : ∀ p ∈ blk, p % 2 = 1)
+    (hw : walkBlock m (mulm m g g) b2 blk w = some w') :
+    (∀ q, q ∣ m → q ∣ w.product → q ∣ w'.product) ∧
+      ∀ l ∈ blk, w.pPrev < l → l ≤ b2 → ∀ q, q ∣ m → g ^ l ≡ 1 [MOD q] → q ∣ w'.product := by
+  obtain ⟨w'', h1, _, _, _, h5, h6⟩ :=
+    Ymq.Pm1Impl.walkBlock_spec (b2 := b2) hm (Ymq.Pm1Impl.g2_modEq m g) blk w hinv hsorted hodds hodd
+  rw [hw] at h1
+  simp only [Option.some.injEq] at h1
+  subst h1
+  exact ⟨h5, h6⟩
+
+/-- non-vacuity: `m = 381 = 3·127`, `g = 2`, stop prime `5`, block `[7, 11, 13]`, `b2 = 11`: `2^7 ≡ 1 mod 127` and
+the product after the block is divisible by 127 -/
+example : (2 ^ 7 ≡ 1 [MOD 127]) ∧ expModn (mulm 381) (onem 381) 2 5 = some 32 ∧
+    (walkBlock 381 (mulm 381 2 2) 11 [7, 11, 13]
+      { x := 32, product := subm 381 32 (onem 381), productsRev := [onem 381], gaps := [mulm 381 2 2], pPrev := 5 }).map
+      (fun w => (w.product % 127, w.pPrev)) = some (0, 13) := by
+  refine ⟨by decide, by decide +kernel, by decide +kernel⟩
 
 end Ymq.C16
